@@ -130,6 +130,10 @@ func (w *world) exec(op string) (string, string) {
 			if ans = w.execVC(f[1:]); ans == "" {
 				line = "" // `vc` has emitted its own lines
 			}
+		case "vx":
+			if ans = w.execVX(f[1:]); ans == "" {
+				line = "" // `vx` has emitted its own lines
+			}
 		default:
 			ans = "bad-op"
 		}
@@ -226,7 +230,7 @@ func main() {
 	r.MaxSamples = 6
 	r.Rule = "distinct by sha256 of the request lines; non-trivial = vn: a value used by two listener generations and a Wait answered; " +
 		"vr: forced schedule with >= 2 events; pr: >= 2 callbacks; ev: >= 2 hooks and >= 2 triggers; it: a Hook/Unhook executed inside a callback; om: a Set/Delete/Clear executed inside a ForEach consumer; " +
-		"mt/pt/hw/hc/lk/lm/uu/vd/vc: every stress run"
+		"mt/pt/hw/hc/lk/lm/uu/vd/vc/vx: every stress run"
 	if lines := r.ReplayLines(); lines != nil {
 		emit(r, runOps(0, lines))
 		r.Finish()
@@ -288,6 +292,10 @@ func main() {
 	for i := 0; i < 8*r.Scale; i++ {
 		rng, _ := r.Rng.Fork()
 		st = append(st, genVC(rng))
+	}
+	for i := 0; i < 8*r.Scale; i++ {
+		rng, _ := r.Rng.Fork()
+		st = append(st, genVX(rng))
 	}
 	runAll(r, make([]uint64, len(st)), st, 3)
 	r.Finish()
